@@ -258,6 +258,9 @@ def Consistent (g : Header) (D : List Header) : Prop :=
   (∀ a ∈ g :: D, ∀ b ∈ g :: D, a.id = b.id → a.parent = b.parent ∧ a.height = b.height) ∧
   (∀ b ∈ g :: D, ∀ p ∈ g :: D, b.parent = p.id → b.id ≠ g.id → b.height = p.height + 1)
 
+instance (g : Header) (D : List Header) : Decidable (Consistent g D) := by
+  unfold Consistent; exact inferInstance
+
 def Univ.ofBlocks (g : Header) (D : List Header) (hc : Consistent g D) : Univ where
   gid := g.id
   mem i p h := ∃ b ∈ g :: D, b.id = i ∧ b.parent = p ∧ b.height = h
